@@ -107,8 +107,9 @@ def mapperSignals (j : Json) : Except String (List Rat) := do
   pure (Impl.adaptivePixelSignals pow pixels pw idx sz sfs ad)
 
 /-- the linear object a scheme reads.  Two ways to supply the neighbour table: `"neighbors"`/`"sizes"`
-    (the implementation's own table, an input) or `"mesh_shape": [H, W]` (a rectangular mesh: the model's
-    own `rectangular_neighbors_from`, `Impl.rectMeshNeighbors`).  Two ways to supply the pixel signals:
+    (the implementation's own table, an input), `"mesh_shape": [H, W]` (a rectangular mesh: the model's
+    own `rectangular_neighbors_from`, `Impl.rectMeshNeighbors`) or `"csr"` (a Delaunay mesh: the model's own
+    `Mesh2DDelaunay.neighbors` from scipy's CSR pair).  Two ways to supply the pixel signals:
     `"signals"` (the implementation's, an input) or `"mapper"` (the mapper tables + adapt image: the
     model's own `adaptive_pixel_signals_from`). -/
 def getObj [Zero α] (N : Num α) (j : Json) : Except String (Impl.LinObj α) := do
@@ -118,14 +119,23 @@ def getObj [Zero α] (N : Num α) (j : Json) : Except String (Impl.LinObj α) :=
       let hw ← getNats v
       pure (some (hw.getD 0 0, hw.getD 1 0))
     | .error _ => pure none
-  let neighbors ← match meshShape, j.getObjVal? "neighbors" with
-    | some (h, w), _ => pure (Impl.rectMeshNeighbors h w)
-    | none, .ok v => getNatTable params v
-    | none, .error _ => pure []
-  let sizes ← match meshShape, j.getObjVal? "sizes" with
-    | some (h, w), _ => pure (Impl.rectMeshSizes h w)
-    | none, .ok v => getNats v
-    | none, .error _ => pure []
+  -- a Delaunay mesh given by scipy's CSR pair `vertex_neighbor_vertices` (the model's own `Mesh2DDelaunay.neighbors`)
+  let csr ← match j.getObjVal? "csr" with
+    | .ok v => do
+      let indptr ← getNats (← field v "indptr")
+      let indices ← getNats (← field v "indices")
+      pure (some (indptr, indices))
+    | .error _ => pure none
+  let neighbors ← match meshShape, csr, j.getObjVal? "neighbors" with
+    | some (h, w), _, _ => pure (Impl.rectMeshNeighbors h w)
+    | none, some (ip, ix), _ => pure (Impl.delaunayMeshNeighbors ip ix params)
+    | none, none, .ok v => getNatTable params v
+    | none, none, .error _ => pure []
+  let sizes ← match meshShape, csr, j.getObjVal? "sizes" with
+    | some (h, w), _, _ => pure (Impl.rectMeshSizes h w)
+    | none, some (ip, ix), _ => pure (Impl.delaunayMeshSizes ip ix params)
+    | none, none, .ok v => getNats v
+    | none, none, .error _ => pure []
   let signals ← match j.getObjVal? "mapper", j.getObjVal? "signals" with
     | .ok m, _ => do pure ((← mapperSignals m).map N.ofRat)
     | .error _, .ok v => getList N.get v
